@@ -421,7 +421,8 @@ def run(ctx, res):
     escapes = []
     first = True
     longest = 0.0
-    while first or time.time() - t_start + longest < budget:
+    # the first two chunks run whatever the clock says (the coverage floor of report.py must not depend on load)
+    while first or counters['chunks'] < 2 or time.time() - t_start + longest < budget:
         first = False
         t_chunk = time.time()
         chunk = [next(stream) for _ in range(chunk_size)]
